@@ -319,35 +319,33 @@ func (c *Check) freshVotersAreDistinct(rule string) {
 			if s.Field.Name() != "Voters" || s.Method != "Set" || len(s.Args) < 2 {
 				continue
 			}
-			// the stored record: a local Voter never assigned as a whole
-			var rec *ssa.Alloc
-			for _, b := range f.Blocks {
-				for _, in := range b.Instrs {
-					if a, ok := in.(*ssa.Alloc); ok && namedOf(a.Type()) == vt && rootsAt(s.Args[1], a) && len(r.wholeStores[a]) == 0 {
-						rec = a
-					}
-				}
-			}
-			if rec == nil {
+			// the stored record: built from scratch (a literal, or a constructor of the types package), never loaded
+			_ = vt
+			fields, built := p.builtRecordFields(f, s.Args[1])
+			if !built {
 				continue
 			}
-			var key ssa.Value
-			for _, st := range r.fieldStores[rec] {
-				if fa, ok := st.Addr.(*ssa.FieldAddr); ok && fa.X == ssa.Value(rec) && fieldName(fa.X.Type(), fa.Field) == "VoteKey" {
-					key = st.Val
-				}
-			}
-			if key == nil {
+			K, hasKey := fields["VoteKey"]
+			if !hasKey {
 				continue
 			}
 			nFresh++
 			c.touch(f)
 			cons := "fresh-voter @ " + FuncKey(f)
+			// the registration the later proofs are bound to: the record carries the height at which it was created
+			// (NewVoter signs over voter.Height) and starts PENDING
+			if fields["Height"] == "Context.BlockHeight()" {
+				c.Held(rule, "registration-height-recorded "+cons, p.InstrPos(s.Call), "Height = block height of the registration")
+			} else {
+				c.Violated(rule, "registration-height-recorded "+cons, p.InstrPos(s.Call), "the new voter record stores Height = "+fields["Height"]+", not the height of its registration: the proofs NewVoter checks are no longer bound to this registration")
+			}
+			if fields["Status"] != "VOTER_STATUS_PENDING" {
+				c.Violated(rule, "starts-pending "+cons, p.InstrPos(s.Call), "a new voter record starts with status "+fields["Status"])
+			}
 			// (a) address absent
 			setKey := r.E(s.Args[0])
 			c.RequireFact(f, rule, "fresh-voter-address-absent", lit("!Voters.Has("+setKey+")#0"), instrSet([]ssa.Instruction{s.Call}), "new voter record")
 			// (b) key consulted
-			K := r.E(key)
 			okB := false
 			var seen []string
 			var lookups []*ssa.Function
@@ -355,6 +353,25 @@ func (c *Check) freshVotersAreDistinct(rule string) {
 				iff, ok := nf.Block.Instrs[len(nf.Block.Instrs)-1].(*ssa.If)
 				if !ok {
 					continue
+				}
+				// a lookup in a set of keys built from the voter records: `if _, used := usedKeys[newKey]; used`
+				for _, lk := range condLookups(iff.Cond, 0) {
+					if !strings.Contains(r.E(lk.Index), K) {
+						continue
+					}
+					for _, call := range condCalls(lk.X, 0) {
+						g := call.Call.StaticCallee()
+						if g == nil || !isProdPkgFn(g) {
+							continue
+						}
+						for _, gs := range p.reachSitesWithClosures(g) {
+							if !gs.IsWrite() && gs.Field == s.Field {
+								okB = true
+								seen = append(seen, "set built by "+FuncKey(g)+" → "+gs.Field.Name()+"."+gs.Method)
+								lookups = append(lookups, g)
+							}
+						}
+					}
 				}
 				for _, call := range condCalls(iff.Cond, 0) {
 					mentions := false
@@ -432,6 +449,28 @@ func condCalls(v ssa.Value, depth int) []*ssa.Call {
 			if st, ok := ref.(*ssa.Store); ok && st.Addr == ssa.Value(x) {
 				out = append(out, condCalls(st.Val, depth+1)...)
 			}
+		}
+		return out
+	}
+	return nil
+}
+
+// condLookups: the map lookups a branch condition is computed from.
+func condLookups(v ssa.Value, depth int) []*ssa.Lookup {
+	if depth > 6 {
+		return nil
+	}
+	switch x := v.(type) {
+	case *ssa.Lookup:
+		return []*ssa.Lookup{x}
+	case *ssa.Extract:
+		return condLookups(x.Tuple, depth+1)
+	case *ssa.UnOp:
+		return condLookups(x.X, depth+1)
+	case *ssa.Phi:
+		var out []*ssa.Lookup
+		for _, e := range x.Edges {
+			out = append(out, condLookups(e, depth+1)...)
 		}
 		return out
 	}
@@ -904,6 +943,14 @@ func (c *Check) lookupCoversEveryStatus(rule string, g *ssa.Function, recT *type
 				eqs = append(eqs, ci)
 			}
 		}
+		// … or records every key in a set the caller looks the new key up in
+		for _, b := range f.Blocks {
+			for _, in := range b.Instrs {
+				if mu, ok := in.(*ssa.MapUpdate); ok {
+					eqs = append(eqs, mu)
+				}
+			}
+		}
 		if len(eqs) == 0 {
 			continue
 		}
@@ -993,5 +1040,101 @@ func (c *Check) lookupCoversEveryStatus(rule string, g *ssa.Function, recT *type
 		if !bad {
 			c.Held(rule, "lookup-compares-every-status @ "+FuncKey(f), p.Pos(f.Pos()), fmt.Sprintf("%d status tests, %d comparisons: every named status reaches a comparison", len(edges), len(eqs)))
 		}
+	}
+}
+
+
+// freshRecordsNeverOverwrite: a Set on the keeper map `field` whose value is a record built in place (never loaded)
+// is reached only when the key was looked up and found absent. Otherwise creating a record again wipes what the
+// existing record holds (a validator's locked coins, its rewards, its status).
+func (c *Check) freshRecordsNeverOverwrite(rule, pkgRel, field string, floor int) {
+	p := c.p
+	n := 0
+	for _, f := range p.ProdFuncs {
+		if p.isGenerated(f) || len(f.Blocks) == 0 || strings.Contains(FuncKey(f), "/module.") {
+			continue
+		}
+		r := p.R(f)
+		for _, s := range p.StoreSites(f) {
+			if s.Field.Name() != field || s.Method != "Set" || len(s.Args) < 2 || s.Field.Pkg() == nil || relPkg(s.Field.Pkg().Path()) != pkgRel {
+				continue
+			}
+			u, ok := s.Args[1].(*ssa.UnOp)
+			if !ok {
+				continue
+			}
+			al, ok := u.X.(*ssa.Alloc)
+			if !ok {
+				continue
+			}
+			fresh := true
+			for _, o := range p.recordOrigins(f, al) {
+				if !strings.HasPrefix(o, "new(") {
+					fresh = false
+				}
+			}
+			if !fresh {
+				continue
+			}
+			n++
+			k := regexp.QuoteMeta(r.E(s.Args[0]))
+			c.RequireFact(f, rule, "fresh-"+field+"-record-key-absent", `^!`+field+`\.Has\(`+k+`\)#0$|^errors\.Is\(`+field+`\.Get\(`+k+`\)#1, collections\.ErrNotFound\)$`, instrSet([]ssa.Instruction{s.Call}), "creation of a "+field+" record")
+		}
+	}
+	c.Floor(rule, field+" records created in place", n, floor)
+}
+
+
+// genesisRefusesProposerAmongVoters: relayer InitGenesis (or the GenesisState.Validate it runs) has a branch on
+// `proposer == voters[i]` — both taken from the genesis document, compared as they are — whose true side cannot reach
+// a normal return (it panics / fails). Necessary for "the proposer is not listed among the voters" on an imported state.
+func (c *Check) genesisRefusesProposerAmongVoters(rule string) {
+	p := c.p
+	ig := p.MustFn("x/relayer/module.InitGenesis")
+	fns := []*ssa.Function{ig}
+	for _, ci := range callsIn(ig) {
+		if g := ci.Common().StaticCallee(); g != nil && g.Name() == "Validate" && isProdPkgFn(g) && len(g.Blocks) > 0 {
+			fns = append(fns, g)
+		}
+	}
+	found := false
+	for _, f := range fns {
+		c.touch(f)
+		recv := "$2"
+		if f != ig {
+			recv = "$0"
+		}
+		re := regexp.MustCompile(`^\(` + regexp.QuoteMeta(recv) + `\.Relayer\.Proposer == ` + regexp.QuoteMeta(recv) + `\.Relayer\.Voters\[φ\{\(1 \+ @\)\|0\}\]\)$|^\(` + regexp.QuoteMeta(recv) + `\.Relayer\.Voters\[φ\{\(1 \+ @\)\|0\}\] == ` + regexp.QuoteMeta(recv) + `\.Relayer\.Proposer\)$|^slices\.Contains\(` + regexp.QuoteMeta(recv) + `\.Relayer\.Voters, ` + regexp.QuoteMeta(recv) + `\.Relayer\.Proposer\)$|^any\(` + regexp.QuoteMeta(recv) + `\.Relayer\.Voters, .*Proposer.*\)$`)
+		for _, ef := range p.EdgeFacts(f) {
+			if ef.Pred != nil || !re.MatchString(ef.Fact) {
+				continue
+			}
+			found = true
+			tgt := ef.Block.Succs[ef.Idx]
+			if canReachSuccessFromBlock(f, tgt) {
+				c.Violated(rule, "genesis-refuses-proposer-among-voters @ "+FuncKey(f), p.InstrPos(ef.Block.Instrs[len(ef.Block.Instrs)-1]), "a genesis whose proposer is also listed among the voters is accepted")
+			} else {
+				c.Held(rule, "genesis-refuses-proposer-among-voters @ "+FuncKey(f), p.InstrPos(ef.Block.Instrs[len(ef.Block.Instrs)-1]), "proposer == voters[i] → refused")
+			}
+		}
+	}
+	if !found {
+		c.Violated(rule, "genesis-refuses-proposer-among-voters @ "+FuncKey(ig), p.Pos(ig.Pos()), "no comparison of the genesis proposer with the listed voters (same representation on both sides) found reason=not-established")
+	}
+}
+
+
+// slashFractionsValidated: the parameter validation the module offers (Params.Validate, used by ValidateGenesis and
+// the genesis tooling) accepts a slash fraction f only with 0 <= f < 1 — for BOTH fractions. With f < 0 a slash
+// credits the offender and drives the slashed total negative; with f >= 1 it takes more than is held.
+func (c *Check) slashFractionsValidated(rule string) {
+	p := c.p
+	v := p.MustFn("x/locking/types.Params.Validate")
+	c.touch(v)
+	for _, f := range []string{"SlashFractionDoubleSign", "SlashFractionDowntime"} {
+		x := regexp.QuoteMeta("$0." + f)
+		ord := `(‹\d+›)?`
+		c.RequireFact(v, rule, f+"-not-negative", `^!LegacyDec\.IsNegative\(`+x+`\)`+ord+`$|^LegacyDec\.IsPositive\(`+x+`\)`+ord+`$|^LegacyDec\.GTE?\(`+x+`, sdkmath\.LegacyZeroDec\(\)\)`+ord+`$`, nil, "")
+		c.RequireFact(v, rule, f+"-below-one", `^!LegacyDec\.GTE\(`+x+`, sdkmath\.(LegacyNewDec\(1\)|LegacyOneDec\(\))\)`+ord+`$|^LegacyDec\.LT\(`+x+`, sdkmath\.(LegacyNewDec\(1\)|LegacyOneDec\(\))\)`+ord+`$`, nil, "")
 	}
 }
